@@ -38,6 +38,7 @@ type workerOut struct {
 	Rule        string        `json:"rule"`
 	Assumptions []string      `json:"assumptions"`
 	Shard       int           `json:"shard"`
+	HasRace     bool          `json:"has_race"`
 	WallS       float64       `json:"wall_s"`
 	Stats       explore.Stats `json:"stats"`
 }
@@ -163,6 +164,83 @@ func conformance(work string, race bool) int {
 		return 2
 	}
 	return 0
+}
+
+// racePass builds the worker with -race and runs the property's free-running bodies.
+// It returns the number of iterations and the distinct race reports (keyed by their
+// gohbase frames).
+func racePass(work, id, tier string, seed int) (int, map[string]string, string) {
+	bin := filepath.Join(work, "vworker.race")
+	cmd := exec.Command("go", "build", "-race", "-overlay", filepath.Join(work, "overlay.json"), "-o", bin, "./cmd/vworker")
+	cmd.Dir = verifDir
+	cmd.Env = goEnv()
+	if out, err := cmd.CombinedOutput(); err != nil {
+		die("building the -race worker failed: %v\n%s", err, out)
+	}
+	budget := "20s"
+	if tier == "thorough" {
+		budget = "180s"
+	}
+	run := exec.Command(bin, "-prop", id, "-racepass", "-budget", budget, "-rlimit-as", "0")
+	run.Env = append(os.Environ(), "GORACE=halt_on_error=0 exitcode=0 history_size=3", fmt.Sprintf("VERIF_SEED=%d", seed))
+	out, err := run.CombinedOutput()
+	text := string(out)
+	iters := 0
+	for _, l := range strings.Split(text, "\n") {
+		if strings.HasPrefix(l, "RACEPASS iterations=") {
+			fmt.Sscanf(l, "RACEPASS iterations=%d", &iters)
+		}
+	}
+	if strings.Contains(text, "RACEPASS-FUNCTIONAL-ERROR") {
+		i := strings.Index(text, "RACEPASS-FUNCTIONAL-ERROR")
+		return iters, nil, strings.SplitN(text[i:], "\n", 2)[0]
+	}
+	if err != nil && iters == 0 {
+		if i := strings.Index(text, "panic: "); i >= 0 && strings.Contains(text, "github.com/tsuna/gohbase") {
+			// the client itself panicked on a real goroutine: that is a finding, not a harness failure
+			return iters, nil, "the client panicked in the free-running pass: " + tail(text[i:], 1500)
+		}
+		die("the -race worker failed: %v\n%s", err, tail(text, 3000))
+	}
+	reports := map[string]string{}
+	for _, blk := range strings.Split(text, "WARNING: DATA RACE")[1:] {
+		if i := strings.Index(blk, "=================="); i >= 0 {
+			blk = blk[:i]
+		}
+		var frames []string
+		lines := strings.Split(blk, "\n")
+		for _, l := range lines {
+			l = strings.TrimSpace(l)
+			if strings.HasPrefix(l, "github.com/tsuna/gohbase") && !strings.Contains(l, "zz_verif") {
+				fn := l
+				if j := strings.IndexByte(fn, '('); j > 0 && strings.HasSuffix(fn, ")") {
+					fn = fn[:strings.LastIndexByte(fn, '(')]
+				}
+				fn = strings.TrimPrefix(fn, "github.com/tsuna/gohbase/")
+				if len(frames) == 0 || frames[len(frames)-1] != fn {
+					frames = append(frames, fn)
+				}
+			}
+		}
+		if len(frames) == 0 {
+			frames = []string{"(harness only)"}
+		}
+		if len(frames) > 2 {
+			frames = []string{frames[0], frames[len(frames)/2]}
+		}
+		key := strings.Join(frames, " / ")
+		if _, ok := reports[key]; !ok {
+			reports[key] = "WARNING: DATA RACE" + tail(blk, 2500)
+		}
+	}
+	return iters, reports, ""
+}
+
+func tail(s string, n int) string {
+	if len(s) > n {
+		return s[:n]
+	}
+	return s
 }
 
 func main() {
@@ -292,6 +370,28 @@ func main() {
 		explore.Merge(&merged, &o.Stats)
 	}
 	meta := outs[0]
+	raceIters := -1
+	if meta.HasRace {
+		var reports map[string]string
+		var ferr string
+		raceIters, reports, ferr = racePass(work, id, *tier, seed)
+		if merged.ClassCounts == nil {
+			merged.ClassCounts = map[string]int64{}
+		}
+		os.MkdirAll(replayDir, 0o755)
+		add := func(class, msg string) {
+			merged.ClassCounts[class]++
+			name := filepath.Join(replayDir, fmt.Sprintf("race-%x.txt", len(merged.Violations)))
+			os.WriteFile(name, []byte(msg), 0o644)
+			merged.Violations = append(merged.Violations, explore.Violation{Unit: "free-running -race pass", Class: class, Msg: msg, Replay: name, Cost: 99})
+		}
+		if ferr != "" {
+			add("free-running-pass-functional-failure", ferr)
+		}
+		for k, v := range reports {
+			add("data-race: "+k, v)
+		}
+	}
 	if len(merged.HarnessErrors) > 0 {
 		for _, e := range merged.HarnessErrors {
 			fmt.Fprintln(os.Stderr, "vcheck: HARNESS ERROR:", e)
@@ -361,6 +461,10 @@ func main() {
 	}
 	if len(merged.Extra) > 0 {
 		cov["extra"] = merged.Extra
+	}
+	if raceIters >= 0 {
+		cov["race_pass"] = map[string]any{"iterations": raceIters, "exhaustive": false,
+			"note": "separate free-running -race run of the same client code (sampling, not part of the exhaustive claim)"}
 	}
 	if len(merged.Outcomes) <= 40 {
 		cov["outcomes"] = merged.Outcomes
